@@ -517,6 +517,22 @@ func (x *entryWorld) familyEntries() {
 	for _, c := range mineCreds {
 		x.judgeCredential("entries", c)
 	}
+	// phase 3 (permanent): another refresh period later every credential that had to be refused is refused still
+	vtime.Advance(16 * time.Minute)
+	for _, c := range mineCreds {
+		must, first := demanded(c.syms, ownWeb)
+		if !must {
+			continue
+		}
+		for _, n := range []*node{w.V, w.I} {
+			v, _ := x.product(n, c.cred)
+			r.Outcome("one refresh period later, demanded=true: " + v)
+			if v == "ok" {
+				x.violation("entries", c.key, "revocation-not-permanent", fmt.Sprintf("entries|verify-node-%s|entries=%d|deciding-position=%d", n.name, len(c.syms), first),
+					fmt.Sprintf("the credential with status entries [%s] had to be refused 16 minutes ago (entry %d is revoked) and verifies now on node %s", symsString(c.syms), first, n.name))
+			}
+		}
+	}
 }
 
 // judgeCredential runs one credential through every path and judges "revoked => refused".
